@@ -139,14 +139,26 @@ CLAIMED.update({
         "design_ref": "DESIGN.md A.1, 4 U-arith",
     },
 })
-NA_HEAP = ("no function contract within CBMC's reach can express it: the content is a recursion over the decision-diagram heap "
-           "(needs an inductive 'node p denotes f' predicate and induction), in template/virtual C++ the front end rejects")
+CLAIMED.update({
+    "C11": {
+        "text": "Thin: proof of the per-node step of the counting recursion only (card_templ<intcard>::_compute, real body with the real helper "
+                "class, recursive calls used through the contract being enforced): the empty set counts 0, below the last variable 1, a skipped "
+                "level multiplies the count below it by the level size except a skipped primed level of an identity-reduced relation, a node's "
+                "count is the sum over every listed child exactly once, a compute-table hit returns the cached count. Iterators (first/next), "
+                "masks, node/edge counts and the real / arbitrary-precision result types are NOT covered.",
+        "note": COMMON_NOTE + " The skipped-level product (a 64-bit multiplication) is checked in the thorough tier only; the quick tier covers every other path. "
+                "That the step contracts add up to 'the count of the function' is an induction over the diagram that is not machine-checked.",
+        "design_ref": "DESIGN.md A.1, A.2b",
+    },
+})
+NA_HEAP = ("the function-level statement is an induction over the decision-diagram heap (it needs a predicate 'node p denotes f'), which no CBMC "
+           "function contract can carry; only the per-node step of such a recursion is within reach - as done for the C15 conversion, the C05 range "
+           "scan and the C11 count - and for this property no step was put under contract, so nothing is claimed")
 NOT_APPLICABLE = {
     "C04": "set algebra: " + NA_HEAP,
     "C08": "reachability fixed points: " + NA_HEAP,
     "C09": "image / vector-matrix products: " + NA_HEAP,
     "C10": "cross-forest copy: " + NA_HEAP + "; the scalar conversions are covered under C19",
-    "C11": "enumeration and counting: " + NA_HEAP,
     "C14": "exchange files: stream I/O (fprintf/fscanf/iostream) plus one recursion over the diagram; outside CBMC contracts",
     "C17": "lifecycles: a history property over global registries, destructor order and std::vector; no per-function contract carries it",
     "C20": "partitioned saturation: " + NA_HEAP,
